@@ -30,9 +30,11 @@ def gen_cases(tier, seed):
             if kind == "rhf":
                 secs = [(k, k) for k in range(1, norb)]
             else:
-                secs = [(a, b) for a in range(1, norb) for b in range(0, a + 1)]
+                secs = [(a, b) for a in range(1, norb) for b in range(0, a + 1)] + [(1, 2), (2, 3), (1, 3)][: max(0, norb - 2)]
             if q and len(secs) > 4:
-                secs = [secs[i] for i in sorted(rng.choice(len(secs), 4, replace=False))]
+                keep = [x for x in secs if x[1] > x[0]][:1]   # always one sector with more down than up electrons
+                rest = [x for x in secs if x not in keep]
+                secs = keep + [rest[i] for i in sorted(rng.choice(len(rest), 4 - len(keep), replace=False))]
             for (na, nb) in secs:
                 for rep in range(2 if q else 5):
                     cases.append({"type": "scf", "kind": kind, "norb": norb, "nelec": [na, nb], "nchol": int(rng.integers(1, 5)),
